@@ -407,6 +407,71 @@ func chanScenario(capacity int, bound int) *vsched.Scenario {
 	}
 }
 
+// pollersScenario: Poll never blocks. `items` values are in the queue and `pollers` goroutines call Poll once
+// each at the same time: every call returns, each value goes to exactly one of them, the others are told
+// the queue is empty.
+func pollersScenario(kind string, items, pollers, bound int) *vsched.Scenario {
+	fam := "pollers-" + kind
+	return &vsched.Scenario{
+		Name:  fmt.Sprintf("pollers/%s/items%d/pollers%d", kind, items, pollers),
+		Bound: bound,
+		Body: func() {
+			var poll func() (int, error)
+			if kind == "channelqueue" {
+				q := fpgo.NewChannelQueue[int](2)
+				for i := 0; i < items; i++ {
+					q.Offer(10 + i)
+				}
+				poll = q.Poll
+			} else {
+				q := fpgo.NewBufferedChannelQueue[int](2, 2, 100)
+				for i := 0; i < items; i++ {
+					q.Offer(10 + i)
+				}
+				poll = q.Poll
+			}
+			for c := 0; c < pollers; c++ {
+				c := c
+				vsched.GoNamed(fmt.Sprintf("poller%d", c), func() {
+					v, err := poll()
+					vsched.Event("polled", c, v, errName(err))
+				})
+			}
+		},
+		Check: func(r *vsched.Result) []vsched.Failure {
+			fs := e1.Basic("C07", fam, r, nil)
+			if len(fs) > 0 {
+				return fs
+			}
+			got, empty := map[int]int{}, 0
+			for _, e := range r.Events {
+				if e.Kind == "polled" {
+					if e.Args[2].(string) == "nil" {
+						got[e.Args[1].(int)]++
+					} else if e.Args[2].(string) == "empty" {
+						empty++
+					} else {
+						fs = append(fs, e1.Fail("C07|"+fam+"|wrong-error", "Poll returned %v", e.Args[2]))
+					}
+				}
+			}
+			served := pollers
+			if items < served {
+				served = items
+			}
+			if len(got) != served || empty != pollers-served {
+				fs = append(fs, e1.Fail("C07|"+fam+"|wrong-result", "%d value(s) queued, %d concurrent Polls: values received %v, %d told empty", items, pollers, got, empty))
+			}
+			for v, n := range got {
+				if n != 1 || v < 10 || v >= 10+items {
+					fs = append(fs, e1.Fail("C07|"+fam+"|duplicate", "value %d received %d times", v, n))
+				}
+			}
+			return fs
+		},
+	}
+}
+
 // payloadScenario: what the queue carries is opaque to it. One producer offers the given values (nil, typed
 // nil pointers, zero values, equal neighbours, equal-but-distinct pointers ...) into a queue whose channel
 // holds one of them and whose overflow buffer takes the rest; the driver then takes them all back: the
@@ -473,6 +538,9 @@ func scenarios(tier string) []*vsched.Scenario {
 	var out []*vsched.Scenario
 	for c := 0; c <= 2; c++ {
 		out = append(out, chanScenario(c, 2))
+	}
+	for _, kind := range []string{"channelqueue", "bufferedchannelqueue"} {
+		out = append(out, pollersScenario(kind, 1, 2, 2), pollersScenario(kind, 2, 3, 2), pollersScenario(kind, 0, 2, 1))
 	}
 	out = append(out,
 		payloadScenario("nil-and-pointers", []interface{}{nil, (*int)(nil), lib.P1, lib.P2, nil}, 1),
